@@ -218,6 +218,9 @@ func (h *DefaultHandler) Run() (err error) {
 
 			if errors.Is(err, ErrConnClosed) {
 				h.eventHandlers.Trigger(utils.EventDisconnect)
+			} else if err == nil {
+				// StopWithError(nil) is a plain stop request
+				h.eventHandlers.Trigger(utils.EventStopped)
 			}
 
 			return err
